@@ -885,11 +885,14 @@ func pgpDetachedObs(part string, sigPackets, signed []byte) ([]sigObs, error) {
 			out = append(out, o)
 			continue
 		}
+		// the document goes through the text canonicaliser, the signature trailer
+		// (which VerifySignature appends) must not: it may contain 0x0a (SHA-512's id)
 		h := sig.Hash.New()
+		var w io.Writer = h
 		if sig.SigType == packet.SigTypeText {
-			h = openpgp.NewCanonicalTextHash(h)
+			w = openpgp.NewCanonicalTextHash(h)
 		}
-		h.Write(signed)
+		w.Write(signed)
 		o.VerifyErr = M.PGP[name].PrimaryKey.VerifySignature(h, sig)
 		out = append(out, o)
 	}
@@ -1090,6 +1093,8 @@ func extract(kind, artifact, contentPath string) ([]sigObs, error) {
 			return nil, err
 		}
 		return append(v1, v2...), nil
+	case "apk-v2":
+		return apkV2Obs(data)
 	case "appx":
 		return appxObs(data)
 	case "xml":
